@@ -18,6 +18,7 @@ import (
 
 	corestore "cosmossdk.io/core/store"
 	"cosmossdk.io/log/v2"
+	sdkmath "cosmossdk.io/math"
 	cmtproto "github.com/cometbft/cometbft/proto/tendermint/types"
 	dbm "github.com/cosmos/cosmos-db"
 	"github.com/cosmos/cosmos-sdk/codec"
@@ -122,6 +123,17 @@ func fill(v reflect.Value, path string, f map[string]json.RawMessage) {
 		nsec, ok2 := jsonU64(f[path+"#nsec"])
 		if ok1 || ok2 {
 			v.Set(reflect.ValueOf(time.Unix(int64(sec), int64(nsec)).UTC()))
+		}
+		return
+	}
+	if t == reflect.TypeOf(sdkmath.Int{}) {
+		var m map[string]any
+		if json.Unmarshal(f[path], &m) == nil {
+			if str, ok := m["int"].(string); ok {
+				if b, ok := new(big.Int).SetString(str, 10); ok {
+					v.Set(reflect.ValueOf(sdkmath.NewIntFromBigInt(b)))
+				}
+			}
 		}
 		return
 	}
